@@ -47,7 +47,7 @@ package bcl
 //@   ensures [C11] reports_exactly_once: g.ev_send_rerr == 1
 //@   ensures [C11] read_error_is_what_is_reported: g.ev_sent_rerr == ((g.rd_err != nil && g.rd_err != io.EOF && g.ev_recv_done == 0) ? g.rd_err : nil)
 //@   ensures [C11] chunk_channel_closed_once_unless_cancelled: g.ev_close_inpc + g.ev_recv_done == 1
-//@   ensures [C11] every_read_with_data_is_forwarded: g.ev_recv_done == 0 ==> g.ev_send_inpc == g.reads - 1 && ((g.rd_n == 0 && g.rd_err == io.EOF) || (g.rd_err != nil && g.rd_err != io.EOF))
+//@   ensures [C11,C07] every_read_with_data_is_forwarded: g.ev_recv_done == 0 ==> g.ev_send_inpc == g.reads - 1 && ((g.rd_n == 0 && g.rd_err == io.EOF) || (g.rd_err != nil && g.rd_err != io.EOF))
 //@   ensures [C11] stops_reading_when_cancelled: g.ev_recv_done == 1 ==> g.ev_send_inpc == g.reads - 1
 //@   loop 1 invariant still_running: g.closes == 0 && g.ev_send_rerr == 0 && g.ev_close_inpc == 0 && g.ev_recv_done == 0 && g.ev_send_inpc == g.reads
 //
